@@ -115,6 +115,9 @@ func NewTimer(d Duration) *Timer {
 // wait blocks the caller (virtually) until the timer's instant or one of the caller's context
 // deadlines; delivers the tick if the instant has been reached.
 func (t *Timer) wait() {
+	if !sched.CanSleep() {
+		return // background goroutine: the timer is inert, the caller's select keeps its other cases
+	}
 	// When a context deadline of the caller fired during this sleep the tick is withheld: a select
 	// on both would otherwise be decided by Go's random choice; "deadline first" is one legal outcome.
 	if sched.SleepUntil(t.at) > 0 {
